@@ -71,7 +71,7 @@ class Patch:
         self.undo = []
 
 
-FAULT_KINDS = ["raise_rt", "raise_key", "raise_noargs", "raise_intarg", "nan", "pinf", "ninf", "cplx", "vec", "list3", "tuple2", "none"]
+FAULT_KINDS = ["raise_rt", "raise_key", "raise_noargs", "raise_intarg", "raise_stopiter", "nan", "pinf", "ninf", "cplx", "vec", "list3", "tuple2", "none"]
 FAULT_KINDS_SPEC = ["notuple", "tuple3", "sd0", "sdneg", "sdnan", "sdinf"]
 
 
@@ -201,6 +201,8 @@ def make_target(run):
                 raise NoArgsError()
             if kind == "raise_intarg":
                 raise InjectedTargetError(7)
+            if kind == "raise_stopiter":  # e.g. a target calling next() on an exhausted iterator
+                raise StopIteration("injected at call %d" % k)
             bad = {"nan": np.nan, "pinf": np.inf, "ninf": -np.inf, "cplx": 1 + 2j,
                    "vec": np.array([1.0, 2.0]), "list3": [float(val) if np.isscalar(val) else 1.0, 0.5, 0.25],
                    "tuple2": (float(val) if np.isscalar(val) else 1.0, 0.5), "none": None}
